@@ -250,9 +250,13 @@ pub struct FunctionType { pub id: Ghost<int> }         // src/variable/function_
 pub struct MultiType { pub id: Ghost<int> }            // src/variable/multi_type.rs (HashSet-based unions: outside Verus)
 pub struct StructType { pub id: Ghost<int> }           // src/variable/struct_type.rs (HashMap-based)
 pub struct Params { pub id: Ghost<int> }
+//@BEGIN opaque_function_kinds
 pub struct AnonymousFunction { pub id: Ghost<int> }
 pub struct FunctionDeclaration { pub id: Ghost<int> }
+//@END opaque_function_kinds
+//@BEGIN opaque_reduce
 pub struct Reduce { pub id: Ghost<int> }
+//@END opaque_reduce
 pub struct StructIns { pub id: Ghost<int> }            // instruction::struct::Struct
 pub struct TypeFilter { pub id: Ghost<int> }
 pub struct NativeFn { pub id: Ghost<int> }              // fn(&mut Interpreter) -> Result<Variable, ExecError> (fn pointers: outside Verus)
